@@ -596,3 +596,136 @@ func specBoolByte(b bool) int {
 //@     invariant 0 <= rangeindex+1 && rangeindex+1 <= len(values) && len(nodeValues) == rangeindex+1 && fresh(nodeValues) && fresh(nodeVariables)
 //@     invariant forall k int :: 0 <= k && k <= rangeindex ==> (isint(values[k]) && nodeValues[k] == ival(values[k])) || (typeis(values[k], string) && nodeValues[k] == 0 && has(nodeVariables, sval(values[k])) && nodeVariables[sval(values[k])] == k)
 //@     invariant forall s string :: has(nodeVariables, s) ==> 0 <= nodeVariables[s] && nodeVariables[s] <= rangeindex && typeis(values[nodeVariables[s]], string) && sval(values[nodeVariables[s]]) == s
+
+// ---------------------------------------------------------------------------------------------
+// UintNode factory and rep check
+
+//@ type UintNode invariant forall s string :: has(self.variables, s) ==> 0 <= self.variables[s] && self.variables[s] < len(self.values) && self.values[self.variables[s]] == 0 && re_match(specVarNamePattern(), s)
+//@   invariant forall s string, t string :: has(self.variables, s) && has(self.variables, t) && s != t ==> self.variables[s] != self.variables[t]
+
+//@ func (*UintNode).checkRep
+//@   property C12 C13
+//@   let okW = specIsIntW(node.byteSize)
+//@   panics_if !okW
+//@   panics_if okW && (exists i int :: 0 <= i && i < len(node.values) && !specInRangeU(node.byteSize, node.values[i]))
+//@   panics_only_if !okW || (exists s string :: has(node.variables, s)) || (exists i int :: 0 <= i && i < len(node.values) && !specInRangeU(node.byteSize, node.values[i]))
+//@   ensures forall i int :: 0 <= i && i < len(node.values) ==> specInRangeU(node.byteSize, node.values[i])
+//@   ensures forall s string :: has(node.variables, s) ==> 0 <= node.variables[s] && node.variables[s] < len(node.values) && node.values[node.variables[s]] == 0 && re_match(specVarNamePattern(), s)
+//@   ensures forall s string, t string :: has(node.variables, s) && has(node.variables, t) && s != t ==> node.variables[s] != node.variables[t]
+//@   loop 1
+//@     invariant okW && 0 <= rangeindex+1 && rangeindex+1 <= len(node.values)
+//@     invariant forall k int :: 0 <= k && k <= rangeindex ==> specInRangeU(node.byteSize, node.values[k])
+//@   loop 2
+//@     invariant okW && forall k int :: 0 <= k && k < len(node.values) ==> specInRangeU(node.byteSize, node.values[k])
+//@     invariant forall s string :: has(itervisited, s) ==> has(node.variables, s) && 0 <= node.variables[s] && node.variables[s] < len(node.values) && node.values[node.variables[s]] == 0 && re_match(specVarNamePattern(), s) && has(visited, node.variables[s])
+//@     invariant forall s string, t string :: has(itervisited, s) && has(itervisited, t) && s != t ==> node.variables[s] != node.variables[t]
+//@     invariant fresh(visited)
+
+//@ func NewUintNode
+//@   property C12 C13 C09
+//@   let okW = specIsIntW(byteSize)
+//@   let r = cast(result, *UintNode)
+//@   panics_if !okW
+//@   panics_if okW && len(values)*byteSize > 16777215
+//@   panics_if exists i int :: 0 <= i && i < len(values) && !isint(values[i]) && !typeis(values[i], string)
+//@   panics_if okW && (exists i int :: 0 <= i && i < len(values) && isint(values[i]) && !(0 <= ival(values[i]) && specInRangeU(byteSize, ival(values[i]))))
+//@   panics_only_if !okW || len(values)*byteSize > 16777215 || (exists i int :: 0 <= i && i < len(values) && !(isint(values[i]) && 0 <= ival(values[i]) && specInRangeU(byteSize, ival(values[i]))))
+//@   ensures typeis(result, *UintNode) && fresh(result) && r.byteSize == byteSize && len(r.values) == len(values)
+//@   ensures forall i int :: 0 <= i && i < len(values) ==> (isint(values[i]) && r.values[i] == ival(values[i])) || (typeis(values[i], string) && r.values[i] == 0 && has(r.variables, sval(values[i])) && r.variables[sval(values[i])] == i)
+//@   ensures forall s string :: has(r.variables, s) ==> 0 <= r.variables[s] && r.variables[s] < len(values) && typeis(values[r.variables[s]], string) && sval(values[r.variables[s]]) == s
+//@   loop 1
+//@     invariant 0 <= rangeindex+1 && rangeindex+1 <= len(values) && len(nodeValues) == rangeindex+1 && fresh(nodeValues) && fresh(nodeVariables)
+//@     invariant forall k int :: 0 <= k && k <= rangeindex ==> (isint(values[k]) && nodeValues[k] == ival(values[k])) || (typeis(values[k], string) && nodeValues[k] == 0 && has(nodeVariables, sval(values[k])) && nodeVariables[sval(values[k])] == k)
+//@     invariant forall s string :: has(nodeVariables, s) ==> 0 <= nodeVariables[s] && nodeVariables[s] <= rangeindex && typeis(values[nodeVariables[s]], string) && sval(values[nodeVariables[s]]) == s
+
+// ---------------------------------------------------------------------------------------------
+// BinaryNode factory and rep check
+
+//@ type BinaryNode invariant forall s string :: has(self.variables, s) ==> 0 <= self.variables[s] && self.variables[s] < len(self.values) && self.values[self.variables[s]] == 0 && re_match(specVarNamePattern(), s)
+//@   invariant forall s string, t string :: has(self.variables, s) && has(self.variables, t) && s != t ==> self.variables[s] != self.variables[t]
+
+//@ func (*BinaryNode).checkRep
+//@   property C12 C13
+//@   panics_if exists i int :: 0 <= i && i < len(node.values) && !(0 <= node.values[i] && node.values[i] < 256)
+//@   panics_only_if (exists s string :: has(node.variables, s)) || (exists i int :: 0 <= i && i < len(node.values) && !(0 <= node.values[i] && node.values[i] < 256))
+//@   ensures forall i int :: 0 <= i && i < len(node.values) ==> 0 <= node.values[i] && node.values[i] < 256
+//@   ensures forall s string :: has(node.variables, s) ==> 0 <= node.variables[s] && node.variables[s] < len(node.values) && node.values[node.variables[s]] == 0 && re_match(specVarNamePattern(), s)
+//@   ensures forall s string, t string :: has(node.variables, s) && has(node.variables, t) && s != t ==> node.variables[s] != node.variables[t]
+//@   loop 1
+//@     invariant 0 <= rangeindex+1 && rangeindex+1 <= len(node.values)
+//@     invariant forall k int :: 0 <= k && k <= rangeindex ==> 0 <= node.values[k] && node.values[k] < 256
+//@   loop 2
+//@     invariant forall k int :: 0 <= k && k < len(node.values) ==> 0 <= node.values[k] && node.values[k] < 256
+//@     invariant forall s string :: has(itervisited, s) ==> has(node.variables, s) && 0 <= node.variables[s] && node.variables[s] < len(node.values) && node.values[node.variables[s]] == 0 && re_match(specVarNamePattern(), s) && has(visited, node.variables[s])
+//@     invariant forall s string, t string :: has(itervisited, s) && has(itervisited, t) && s != t ==> node.variables[s] != node.variables[t]
+//@     invariant fresh(visited)
+
+//@ func NewBinaryNode
+//@   property C12 C13 C09
+//@   let r = cast(result, *BinaryNode)
+//@   panics_if len(values) > 16777215
+//@   panics_if exists i int :: 0 <= i && i < len(values) && !typeis(values[i], int) && !typeis(values[i], string)
+//@   panics_if exists i int :: 0 <= i && i < len(values) && typeis(values[i], int) && !(0 <= ival(values[i]) && ival(values[i]) < 256)
+//@   panics_if exists i int :: 0 <= i && i < len(values) && typeis(values[i], string) && hasprefix(sval(values[i]), "0b") && !parse_ok(sval(values[i]), 0, 0, 1)
+//@   panics_only_if len(values) > 16777215 || (exists i int :: 0 <= i && i < len(values) && !(typeis(values[i], int) && 0 <= ival(values[i]) && ival(values[i]) < 256))
+//@   ensures typeis(result, *BinaryNode) && fresh(result) && len(r.values) == len(values)
+//@   ensures forall i int :: 0 <= i && i < len(values) ==> (typeis(values[i], int) && r.values[i] == ival(values[i])) || (typeis(values[i], string) && hasprefix(sval(values[i]), "0b") && parse_ok(sval(values[i]), 0, 0, 1) && r.values[i] == parse_val(sval(values[i]), 0, 0, 1)) || (typeis(values[i], string) && !hasprefix(sval(values[i]), "0b") && r.values[i] == 0 && has(r.variables, sval(values[i])) && r.variables[sval(values[i])] == i)
+//@   loop 1
+//@     invariant 0 <= rangeindex+1 && rangeindex+1 <= len(values) && len(nodeValues) == rangeindex+1 && fresh(nodeValues) && fresh(nodeVariables)
+//@     invariant forall k int :: 0 <= k && k <= rangeindex ==> (typeis(values[k], int) && nodeValues[k] == ival(values[k])) || (typeis(values[k], string) && hasprefix(sval(values[k]), "0b") && parse_ok(sval(values[k]), 0, 0, 1) && nodeValues[k] == parse_val(sval(values[k]), 0, 0, 1)) || (typeis(values[k], string) && !hasprefix(sval(values[k]), "0b") && nodeValues[k] == 0 && has(nodeVariables, sval(values[k])) && nodeVariables[sval(values[k])] == k)
+//@     invariant forall s string :: has(nodeVariables, s) ==> 0 <= nodeVariables[s] && nodeVariables[s] <= rangeindex && typeis(values[nodeVariables[s]], string) && sval(values[nodeVariables[s]]) == s
+
+// ---------------------------------------------------------------------------------------------
+// BooleanNode factory and rep check
+
+//@ type BooleanNode invariant forall s string :: has(self.variables, s) ==> 0 <= self.variables[s] && self.variables[s] < len(self.values) && !self.values[self.variables[s]] && re_match(specVarNamePattern(), s)
+//@   invariant forall s string, t string :: has(self.variables, s) && has(self.variables, t) && s != t ==> self.variables[s] != self.variables[t]
+
+//@ func (*BooleanNode).checkRep
+//@   property C12 C13
+//@   panics_only_if exists s string :: has(node.variables, s)
+//@   ensures forall s string :: has(node.variables, s) ==> 0 <= node.variables[s] && node.variables[s] < len(node.values) && !node.values[node.variables[s]] && re_match(specVarNamePattern(), s)
+//@   ensures forall s string, t string :: has(node.variables, s) && has(node.variables, t) && s != t ==> node.variables[s] != node.variables[t]
+//@   loop 1
+//@     invariant forall s string :: has(itervisited, s) ==> has(node.variables, s) && 0 <= node.variables[s] && node.variables[s] < len(node.values) && !node.values[node.variables[s]] && re_match(specVarNamePattern(), s) && has(visited, node.variables[s])
+//@     invariant forall s string, t string :: has(itervisited, s) && has(itervisited, t) && s != t ==> node.variables[s] != node.variables[t]
+//@     invariant fresh(visited)
+
+//@ func NewBooleanNode
+//@   property C12 C13 C09
+//@   let r = cast(result, *BooleanNode)
+//@   panics_if len(values) > 16777215
+//@   panics_if exists i int :: 0 <= i && i < len(values) && !typeis(values[i], bool) && !typeis(values[i], string)
+//@   panics_only_if len(values) > 16777215 || (exists i int :: 0 <= i && i < len(values) && !typeis(values[i], bool))
+//@   ensures typeis(result, *BooleanNode) && fresh(result) && len(r.values) == len(values)
+//@   ensures forall i int :: 0 <= i && i < len(values) ==> (typeis(values[i], bool) && r.values[i] == bval(values[i])) || (typeis(values[i], string) && !r.values[i] && has(r.variables, sval(values[i])) && r.variables[sval(values[i])] == i)
+//@   loop 1
+//@     invariant 0 <= rangeindex+1 && rangeindex+1 <= len(values) && len(nodeValues) == rangeindex+1 && fresh(nodeValues) && fresh(nodeVariables)
+//@     invariant forall k int :: 0 <= k && k <= rangeindex ==> (typeis(values[k], bool) && nodeValues[k] == bval(values[k])) || (typeis(values[k], string) && !nodeValues[k] && has(nodeVariables, sval(values[k])) && nodeVariables[sval(values[k])] == k)
+//@     invariant forall s string :: has(nodeVariables, s) ==> 0 <= nodeVariables[s] && nodeVariables[s] <= rangeindex && typeis(values[nodeVariables[s]], string) && sval(values[nodeVariables[s]]) == s
+
+// ---------------------------------------------------------------------------------------------
+// ASCIINode factories and rep check
+
+//@ func (*ASCIINode).checkRep
+//@   property C12 C13 C15
+//@   let valOK = node.variable.name == "" && node.variable.minLength == 0 && node.variable.maxLength == 0 && (forall i int :: 0 <= i && i < len(node.value) ==> node.value[i] < 128)
+//@   let varOK = node.value == "" && re_match(specVarNamePattern(), node.variable.name) && node.variable.minLength >= 0 && node.variable.maxLength >= -1 && (node.variable.maxLength == -1 || node.variable.minLength <= node.variable.maxLength)
+//@   panics_iff (node.isValue && !valOK) || (!node.isValue && !varOK)
+//@   loop 1
+//@     invariant node.isValue && node.variable.name == "" && node.variable.minLength == 0 && node.variable.maxLength == 0
+//@     invariant 0 <= iterpos && iterpos <= len(node.value)
+//@     invariant forall p int :: 0 <= p && p < iterpos ==> node.value[p] < 128
+
+//@ func NewASCIINode
+//@   property C12 C13 C09
+//@   let r = cast(result, *ASCIINode)
+//@   panics_iff len(str) > 16777215 || (exists i int :: 0 <= i && i < len(str) && str[i] >= 128)
+//@   ensures typeis(result, *ASCIINode) && fresh(result) && r.isValue && r.value == str
+
+//@ func NewASCIINodeVariable
+//@   property C12 C15
+//@   let r = cast(result, *ASCIINode)
+//@   panics_iff !(re_match(specVarNamePattern(), name) && minLength >= 0 && maxLength >= -1 && (maxLength == -1 || minLength <= maxLength))
+//@   ensures typeis(result, *ASCIINode) && fresh(result) && !r.isValue && r.value == ""
+//@   ensures r.variable.name == name && r.variable.minLength == minLength && r.variable.maxLength == maxLength
